@@ -19,6 +19,7 @@ claimed = {
  "C20": ("cacheViewFromFile proved against a ghost protocol: a table already cached is served from the cache without touching the file unless an update is requested on a copy loaded for reading (the documented reload, which disposes the old copy first and loads once under an update handler); a miss loads exactly once; every handler opened on a failing path is closed; cached FileInfo.ForUpdate agrees with the handler kind. ViewMap (sync.Map) operations and ReleaseResources clearing the cache at COMMIT/ROLLBACK are assumed contracts; cross-process interleavings are outside", "4 C20"),
  "C04": ("partial: SortValue/SortValues.EquivalentTo and the sort-key lemmas (shared with C07), the GROUP BY bucket assembly worker (every bucket's rows are exactly the indices recorded for its key, in order) and the coercion ladder behind value equality (C06) are proved; SerializeKey / SerializeComparisonKeys / Distinguish build strings (uninterpreted in this engine) and the aggregate functions are not under contract", "4 C04"),
  "C18": ("the scanner is total: every Scanner method keeps 0 <= srcPos <= len(src), never indexes outside the text (bounds/nil obligations), reports EOF only at the end of the text and consumes at least one rune for every other token; every loop of the scanner and the recursion of Scan over comments carry a termination measure (len(src) - srcPos) that is proved to decrease; the line and column a token (and hence a syntax error) carries lie inside the text. The goyacc-generated driver (parser.go) and the print/re-parse round trip (String() of ast.go: strings are uninterpreted in this engine) are outside", "4 C18"),
+ "C02": ("thin: (1) encodeCSV is proved to ask for enclosure of every header and cell that contains a line break, against the assumed contract of the go-text CSV writer (which encloses a field on its own only for the delimiter or a quotation mark); (2) FileInfo.ExportOptions is proved to feed every dialect attribute detected at load time (format, delimiter, positions, single-line, encoding, line break, header, enclose-all, JSON escape, pretty print) back into the writer's options; (3) Transaction.Commit writes the ending line break only for files that are not fixed-length single-line by the file's own flag. The encoders' byte-level output and the loaders (strings/bytes are uninterpreted here) are outside: no round-trip theorem is claimed", "4 C02"),
  "C16": ("Cursor.Fetch/Close/IsOpen/IsInRange/Count/Pointer proved against an abstract (snapshot, position) view for all positions and offsets, with machine integer arithmetic modelled exactly", "4 C16"),
 }
 na = {
